@@ -84,6 +84,23 @@ def check(tier, replay=None):
         for j, inp in enumerate(c["inputs"]):
             inp = eng.from_json(inp); inst = f"{pid}_{j}"
             cases.append(engcheck.Case(pid, inst, history(inst, pid, inp), {"inp": inp}))
+    # forced shape "delta x delta only": walks of doubling length  walk(x,z,n+m) <-- walk(x,y,n), walk(y,z,m), if n == m  over acyclic graphs: a walk of length 2n has ONE
+    # derivation, both halves new in the same iteration while their join keys already have older rows in total (a combined total+delta read must probe both indices)
+    dw = {"rels": [{"arity": 2}, {"arity": 3}],
+          "rules": [{"heads": [(1, [("var", 0), ("var", 1), 1])], "body": [("cl", 0, [("v", 0), ("v", 1)], [])]},
+                    {"heads": [(1, [("var", 0), ("var", 2), ("add", ("var", 3), ("var", 4))])],
+                     "body": [("cl", 1, [("v", 0), ("v", 1), ("v", 3)], []), ("cl", 1, [("v", 1), ("v", 2), ("v", 4)], []), ("if", ("eq", ("var", 3), ("var", 4)))]}]}
+    progs["lldw"] = dw
+    for j in range(4 if tier == "quick" else 12):
+        r4 = rng.fork(f"lldw{j}")
+        nn = r4.range(5, 9)
+        edges = [(i, i + 1) for i in range(nn)]
+        for _ in range(r4.below(4)):
+            a = r4.below(nn - 1); e = (a, r4.range(a + 2, nn))
+            if e not in edges: edges.append(e)
+        inp = {0: r4.shuffle(edges)}
+        inst = f"lldw_{j}"
+        cases.append(engcheck.Case("lldw", inst, history(inst, "lldw", inp), {"inp": inp}))
     for pid, p in progs.items():
         if pid.startswith("c") or pid.startswith("ll"): continue
         for j in range(ninp):
